@@ -412,3 +412,85 @@ def tie_json_text(run: common.Run, drv: common.Driver, rng: random.Random, n: in
         run.count("tie_json_text:" + c["lang"])
         if ans.get("ok") != real:
             _disagree(run, dict(c, what="JsonText.renderWith vs the real JSON text", observed_impl=real[:400], model_answer=str(ans)[:400]))
+
+
+# ------------------------------------------------------------------ C17: -F arguments that contain no name
+def cli_filter_edges(run: common.Run) -> None:
+    """`-F` values made of commas and blanks only: still a filter (refused without -O; with -O it selects no message)"""
+    import re
+    import subprocess
+
+    env = {**os.environ, "PYTHONPATH": f"{common.REPO}/compiler:{common.REPO}/lib/py", "PYTHONDONTWRITEBYTECODE": "1"}
+    text = "proto edge\nmessage Alpha {\n    uint3 a = 1\n}\nmessage Beta {\n    Alpha x = 1\n    bool b = 2\n}\n"
+    with R.Scratch() as sc:
+        for fval in (",", " , ", ",,", "Alpha,", ",Beta", "Alpha, ,Beta"):
+            names = [x.strip() for x in fval.split(",")]
+            want = sorted({"Alpha", "Beta"} & set(names))
+            for lang in ("c", "go"):
+                d = sc.path(f"f{abs(hash((fval, lang))) % 10**8}")
+                os.makedirs(os.path.join(d, "o1"))
+                os.makedirs(os.path.join(d, "o2"))
+                open(os.path.join(d, "edge.bitproto"), "w").write(text)
+                p1 = subprocess.run([common.PY, "-m", "bitproto._main", lang, "edge.bitproto", "o1", "-q", "-F", fval], cwd=d, capture_output=True, text=True, env=env)
+                p2 = subprocess.run([common.PY, "-m", "bitproto._main", lang, "edge.bitproto", "o2", "-q", "-O", "-F", fval], cwd=d, capture_output=True, text=True, env=env)
+                run.evaluated()
+                run.count("cli_filter_edges")
+                rep = {"input": {"files": {"edge.bitproto": text}, "argv": [lang, "edge.bitproto", "out", "-F", fval]}}
+                if p1.returncode == 0 or os.listdir(os.path.join(d, "o1")):
+                    run.violation(dict(rep, kind="impl-vs-spec", observed_impl={"exit": p1.returncode, "files": os.listdir(os.path.join(d, "o1"))},
+                                       expected_by_spec="-F without -O is refused: non-zero exit, no output"))
+                got = []
+                for fn in os.listdir(os.path.join(d, "o2")):
+                    if fn.endswith((".c", ".go")):
+                        src = open(os.path.join(d, "o2", fn)).read()
+                        got += re.findall(r"^int Encode(\w+)\(", src, re.M) + re.findall(r"^func \(m \*(\w+)\) Encode\(\)", src, re.M)
+                if p2.returncode != 0 or sorted(got) != want:
+                    run.violation(dict(rep, argv_O=True, kind="impl-vs-spec", observed_impl={"exit": p2.returncode, "encoders": sorted(got), "stderr": p2.stderr[-200:]},
+                                       expected_by_spec={"encoders": want, "note": "-O -F emits functions for exactly the listed messages"}))
+
+
+# ------------------------------------------------------------------ C18: deterministic output, fixed shapes
+LONG = "TelemetryAggregationWindowDescriptor"
+DET_SCHEMAS = {
+    # generated internal names far beyond 63 characters
+    "longnames": f"proto longnames\nmessage {LONG}Outer {{\n    message {LONG}Middle {{\n        message {LONG}Inner {{\n            uint3 x = 1\n"
+                 f"            byte[3] payload_bytes_of_the_inner = 2\n        }}\n        {LONG}Inner[2] inner_items = 1\n    }}\n    {LONG}Middle middle = 1\n}}\n"
+                 f"type {LONG}AliasOfAnArrayOfBytes = byte[5]\n",
+    "plain": "proto plain\nenum E : uint3 {\n    E_A = 0\n    E_B = 5\n}\nmessage M {\n    E e = 1\n    int13[3] v = 2\n}\n",
+}
+
+
+def determinism_fixed(run: common.Run) -> None:
+    """the same schema compiled under several hash seeds, and into an output directory that already holds a LONGER stale
+    file of the same name, gives byte-identical files"""
+    import hashlib
+    import subprocess
+
+    base_env = {**os.environ, "PYTHONPATH": f"{common.REPO}/compiler:{common.REPO}/lib/py", "PYTHONDONTWRITEBYTECODE": "1"}
+    with R.Scratch() as sc:
+        for name, text in DET_SCHEMAS.items():
+            for lang in ("c", "go", "py"):
+                ref = None
+                for variant in ("seed0", "seed1", "seed-random", "stale-longer-file", "stale-same-file"):
+                    d = sc.path(f"{name}_{lang}_{variant}")
+                    os.makedirs(os.path.join(d, "out"))
+                    open(os.path.join(d, f"{name}.bitproto"), "w").write(text)
+                    env = dict(base_env, PYTHONHASHSEED={"seed1": "1", "seed-random": "random"}.get(variant, "0"))
+                    if variant.startswith("stale"):
+                        for ext in {"c": (".c", ".h"), "go": (".go",), "py": (".py",)}[lang]:
+                            stale = (ref[f"{name}_bp{ext}"] if variant == "stale-same-file" and ref else "") + \
+                                    ("// stale tail from an earlier, longer revision\n" * 400 if variant == "stale-longer-file" else "")
+                            open(os.path.join(d, "out", f"{name}_bp{ext}"), "w").write(stale)
+                    p = subprocess.run([common.PY, "-m", "bitproto._main", lang, f"{name}.bitproto", "out", "-q"], cwd=d, capture_output=True, text=True, env=env)
+                    files = {f: open(os.path.join(d, "out", f)).read() for f in sorted(os.listdir(os.path.join(d, "out")))}
+                    run.evaluated()
+                    run.count("determinism_fixed")
+                    if ref is None:
+                        ref = files
+                        continue
+                    if p.returncode != 0 or files != ref:
+                        diff = [f for f in set(files) | set(ref) if files.get(f) != ref.get(f)]
+                        run.violation({"kind": "impl-vs-spec", "input": {"files": {f"{name}.bitproto": text}, "language": lang, "variant": variant},
+                                       "observed_impl": {"exit": p.returncode, "differing_files": diff,
+                                                         "sha256": {f: hashlib.sha256(files.get(f, "").encode()).hexdigest()[:16] for f in diff}},
+                                       "expected_by_spec": "byte-identical to the first compilation (PYTHONHASHSEED=0, empty output directory)"})
